@@ -708,7 +708,9 @@ class Grammar(Serialize):
         # We change the trees in-place (to support huge grammars)
         # So deepcopy allows calling compile more than once.
         term_defs = [(n, (nr_deepcopy_tree(t), p)) for n, (t, p) in self.term_defs]
-        rule_defs = [(n, p, nr_deepcopy_tree(t), o) for n, p, t, o in self.rule_defs]
+        # The options too: Lark edits their priority in place (priority='invert' / None), which must not reach
+        # the other parsers compiled from this grammar.
+        rule_defs = [(n, p, nr_deepcopy_tree(t), copy(o)) for n, p, t, o in self.rule_defs]
 
         # ===================
         #  Compile Terminals
